@@ -1674,6 +1674,7 @@ fn history(family: &str, seed: u64, idx: usize, thorough: bool, out: &mut impl W
             }
             // a crowded world (one history in eighteen): the snapshot is hundreds of messages and reaches the joiner in bursts
             let crowded = idx % 18 == 4;
+            let mut crowd_hs: Vec<u32> = vec![];
             if crowded {
                 let w = c.any_peer();
                 let n = c.rng.range(300, 800);
@@ -1683,6 +1684,7 @@ fn history(family: &str, seed: u64, idx: usize, thorough: bool, out: &mut impl W
                     let v = small_val(&mut c.rng, Ty::A);
                     c.s.spawn(w, h, true, &[v], None);
                     c.live.push(h);
+                    crowd_hs.push(h);
                 }
                 let d = c.drain(300);
                 c.s.trace.push(json!({"ev":"drain","quiescent":d.0,"rounds":d.1}));
@@ -1743,7 +1745,9 @@ fn history(family: &str, seed: u64, idx: usize, thorough: bool, out: &mut impl W
                 if crowded {
                     // the host runs ahead: whole bursts of the snapshot wait in the joiner's socket — and it keeps rewriting
                     // the youngest entities (the tail of the snapshot) while the snapshot is on its way
-                    let young: Vec<u32> = c.live.iter().rev().take(12).cloned().collect();
+                    // (entities of the crowd only: they are settled everywhere; an entity some client has just spawned may still
+                    // have its first value on the way, and writing it from the host would be two writers at once)
+                    let young: Vec<u32> = crowd_hs.iter().rev().filter(|h| c.live.contains(h)).take(12).cloned().collect();
                     for _ in 0..c.rng.range(10, 40) {
                         for _ in 0..c.rng.range(2, 6) {
                             if !young.is_empty() && c.rng.chance(1, 2) {
